@@ -316,6 +316,25 @@ def default_level(n: ast.AST, env: _Env) -> str:
 # ---------------------------------------------------------------------------
 
 
+def _const_int(n: ast.AST) -> int | None:
+    """Value of a constant integer expression built from literals with + - * ** << (else None)."""
+    if isinstance(n, ast.Constant) and type(n.value) is int:
+        return n.value
+    if isinstance(n, ast.UnaryOp) and isinstance(n.op, ast.USub):
+        v = _const_int(n.operand)
+        return None if v is None else -v
+    if isinstance(n, ast.BinOp) and isinstance(n.op, (ast.Add, ast.Sub, ast.Mult, ast.Pow, ast.LShift)):
+        a, b = _const_int(n.left), _const_int(n.right)
+        if a is None or b is None:
+            return None
+        if isinstance(n.op, (ast.Pow, ast.LShift)):
+            if not 0 <= b <= 128:
+                return None
+            return a**b if isinstance(n.op, ast.Pow) else a << b
+        return a + b if isinstance(n.op, ast.Add) else (a - b if isinstance(n.op, ast.Sub) else a * b)
+    return None
+
+
 def _module_int_constants(tree: ast.Module, site: str) -> dict[str, int]:
     out: dict[str, int] = {}
     stores: dict[str, int] = {}
@@ -332,11 +351,8 @@ def _module_int_constants(tree: ast.Module, site: str) -> dict[str, int]:
             tgt, val = node.target.id, node.value
         if tgt is None:
             continue
-        try:
-            v = ast.literal_eval(val)
-        except Exception:  # noqa: BLE001
-            continue
-        if type(v) is int:
+        v = _const_int(val)
+        if v is not None:
             if stores.get(tgt, 0) != 1:
                 raise TranslationBroken(site, f"constant {tgt} is assigned {stores.get(tgt)} times")
             out[tgt] = v
